@@ -93,15 +93,15 @@ func (h *Authenticate) Unmarshal(v base.HeaderValue) error {
 	}
 
 	if h.Method == AuthMethodBasic {
-		kvs, err := keyValParse(v0, ',')
+		keys, kvs, err := keyValParseOrdered(v0, ',')
 		if err != nil {
 			return err
 		}
 
 		realmReceived := false
 
-		for k, rv := range kvs {
-			v := rv
+		for _, k := range keys {
+			v := kvs[k]
 
 			if k == "realm" {
 				h.Realm = v
@@ -113,7 +113,7 @@ func (h *Authenticate) Unmarshal(v base.HeaderValue) error {
 			return fmt.Errorf("realm is missing")
 		}
 	} else { // digest
-		kvs, err := keyValParse(v0, ',')
+		keys, kvs, err := keyValParseOrdered(v0, ',')
 		if err != nil {
 			return err
 		}
@@ -121,8 +121,8 @@ func (h *Authenticate) Unmarshal(v base.HeaderValue) error {
 		realmReceived := false
 		nonceReceived := false
 
-		for k, rv := range kvs {
-			v := rv
+		for _, k := range keys {
+			v := kvs[k]
 
 			switch k {
 			case "realm":
